@@ -177,7 +177,7 @@ def gen_special(rng, k):
     bypp = bpp // 8
     W, H = rng.choice([1, 8, 16, 17, 40, 65]), rng.choice([1, 8, 16, 17, 40])
     which = rng.choice(["ultrazip", "ultrazip", "tight_rows", "tight_nozlib", "tight_pal", "tight_wide", "trle_rle", "zrle_short",
-                        "zrle_types", "zrle_exact", "corre_count", "rre_count", "hextile_sub", "resize", "cursor", "lengths", "raw_big", "copy_oob",
+                        "zrle_types", "zrle_exact", "tile_seq", "tile_seq", "tile_seq", "corre_count", "rre_count", "hextile_sub", "resize", "cursor", "lengths", "raw_big", "copy_oob",
                         "cursor_trunc", "cursor_trunc", "trunc_large", "trunc_large"])
     L = ["case %d special:%s %s %dx%d" % (k, which, fmtname, W, H)]
     tags = ["special." + which]
@@ -269,6 +269,82 @@ def gen_special(rng, k):
         kk = max(0, room - r * (cpx + 1))
         t1 = "80" + (rb(cpx) + "00") * r + rb(cpx) + "ff" * kk + "00"
         L += ["b 00000001", "b " + hdr(0, 0, W, H, 16), "z 0 1 1 " + t1 + t2]
+    elif which == "tile_seq":
+        # sequences of TRLE / ZRLE tile types, conforming or not: a tile that leaves a palette of n entries (n at every
+        # index-width boundary) or none, anything in between, then 127 / 129 (palette reuse; does not exist in ZRLE and
+        # must be refused there).  The payload sizes follow the decoder's last_type bookkeeping so that the stream
+        # stays in step as long as the decoder accepts it.
+        trle = rng.random() < 0.7
+        tsz = 16 if trle else 64
+        cpx = {1: 1, 2: 2, 4: 3 if fmtname in ("rgb888", "bgr888", "rgb888up") else 4}[bypp]
+        th = rng.choice([1, 2, 3])
+        ntile = rng.choice([2, 3, 3, 4, 5])
+        Wt = tsz * ntile - rng.choice([0, 0, tsz - 1, tsz - 7])
+        last, bits = 0, 0
+        body = ""
+        bitsof = lambda n: 8 if n > 16 else 4 if n > 4 else 2 if n > 2 else 1
+        for ti in range(ntile):
+            tw = min(tsz, Wt - ti * tsz)
+            npx = tw * th
+            kind = rng.choice(["raw", "solid", "packed", "packed", "prle", "prle", "plain", "r127", "r127", "r129", "r129"])
+            if ti == 0 and rng.random() < 0.8:
+                kind = rng.choice(["packed", "prle"])
+            if kind == "raw":
+                body += "00" + rb(cpx * npx)
+            elif kind == "solid":
+                body += "01" + rb(cpx)
+                last = 1
+            elif kind == "packed":
+                n = rng.choice([2, 3, 4, 5, 8, 15, 16])
+                bits = bitsof(n)
+                body += "%02x" % n + rb(cpx * n) + rb(((tw * bits + 7) // 8) * th)
+                last = n
+            elif kind in ("prle", "r129"):
+                if kind == "prle":
+                    n = rng.choice([2, 3, 4, 5, 8, 16, 17, 64, 127])
+                    body += "%02x" % (128 + n) + rb(cpx * n)
+                    last = 128 + n
+                else:
+                    body += "81"
+                left = npx
+                while left > 0:
+                    run = min(left, rng.choice([1, 1, 1, 2, 5, 16, 17, 300]))
+                    idx = rng.randrange(rng.choice([2, 4, 16, 128]))
+                    if run == 1 and rng.random() < 0.7:
+                        body += "%02x" % idx
+                    else:
+                        body += "%02x" % (idx | 0x80) + "ff" * ((run - 1) // 255) + "%02x" % ((run - 1) % 255)
+                    left -= run
+            elif kind == "plain":
+                body += "80"
+                left = npx
+                while left > 0:
+                    run = min(left, rng.choice([1, 2, 5, 16, 17, 300]))
+                    body += rb(cpx) + "ff" * ((run - 1) // 255) + "%02x" % ((run - 1) % 255)
+                    left -= run
+            else:                                   # 127
+                body += "7f"
+                if not trle:
+                    break
+                if last in (0, 128):
+                    break                           # the decoder returns FALSE here
+                if last == 1:
+                    continue                        # repeats the solid colour, no payload
+                if last >= 130:
+                    last &= 0x7f
+                    bits = bitsof(last)
+                if last <= 16:
+                    body += rb(((tw * bits + 7) // 8) * th)
+                else:
+                    break
+        body += rb(rng.choice([0, 0, 0, 3]))
+        W, H = Wt, th
+        L[:] = ["case %d special:%s %s %dx%d" % (k, which, fmtname, W, H),
+                init_line(W, H, fmtname, *rng.choice([(32, 255), (16, 63), (16, 31)])), "fill %d" % rng.randrange(1 << 30), "dump 0"]
+        if trle:
+            L += ["b 00000001", "b " + hdr(0, 0, W, H, 15), "b " + body]
+        else:
+            L += ["b 00000001", "b " + hdr(0, 0, W, H, 16), "z 0 1 1 " + body]
     elif which == "corre_count":
         n = rng.choice([0, 1, 38399, 38400, 38401, 51200, 51201, 61440, 61441, 0xffffffff])
         L += ["b 00000001", "b " + hdr(0, 0, W, H, 4) + be32(n) + rb(bypp) + rb(min(n, 70000) * (4 + bypp) if n < 100000 else 64)]
